@@ -52,6 +52,9 @@ pub struct Case {
     pub server_prog: Vec<Op>,
     pub grease: bool,
     pub extensions: bool,
+    /// values family: (max_field_section_size, max_webtransport_sessions, extra server shutdown(n)) - numbers at
+    /// the varint form boundaries, which decide the length fields of SETTINGS and GOAWAY
+    pub values: Option<(u64, u64, usize)>,
 }
 
 #[derive(Debug, Clone, Default, PartialEq, Eq)]
@@ -82,6 +85,9 @@ pub fn execute(case: &Case, seed: u64, write: Policy) -> Outcome {
             if case2.extensions {
                 b.enable_webtransport(true).enable_datagram(true).enable_extended_connect(true).max_webtransport_sessions(3).max_field_section_size(1000);
             }
+            if let Some((mfs, wts, _)) = case2.values {
+                b.enable_webtransport(true).enable_datagram(true).enable_extended_connect(true).max_webtransport_sessions(wts).max_field_section_size(mfs);
+            }
             let mut conn: h3::server::Connection<SimConn, B> = match b.build(SimConn::new(&net2, SERVER)).await {
                 Ok(c) => c,
                 Err(e) => {
@@ -89,11 +95,14 @@ pub fn execute(case: &Case, seed: u64, write: Policy) -> Outcome {
                     return;
                 }
             };
-            let shutdowns: Vec<usize> = case2.server_prog.iter().filter_map(|o| match o {
+            let mut shutdowns: Vec<usize> = case2.server_prog.iter().filter_map(|o| match o {
                 Op::Shutdown0 => Some(0),
                 Op::Shutdown1 => Some(1),
                 _ => None,
             }).collect();
+            if let Some((_, _, n)) = case2.values {
+                shutdowns.insert(0, n);
+            }
             let mut first = true;
             loop {
                 match conn.accept().await {
@@ -156,6 +165,9 @@ pub fn execute(case: &Case, seed: u64, write: Policy) -> Outcome {
             b.send_grease(case2.grease);
             if case2.extensions {
                 b.enable_datagram(true).enable_extended_connect(true).max_field_section_size(1000);
+            }
+            if let Some((mfs, _, _)) = case2.values {
+                b.enable_datagram(true).enable_extended_connect(true).max_field_section_size(mfs);
             }
             let (mut conn, mut sr): (h3::client::Connection<SimConn, B>, h3::client::SendRequest<simnet::SimOpener, B>) = match b.build(SimConn::new(&net2, CLIENT)).await {
                 Ok(x) => x,
@@ -227,7 +239,7 @@ fn is_legal_frame_type_on_request_stream(ty: u64) -> bool {
 }
 
 pub fn judge(case: &Case, o: &Outcome) -> Vec<(String, String)> {
-    let ctx = format!("client program {:?}, server program {:?}, grease={}, extensions={}", case.client_prog, case.server_prog, case.grease, case.extensions);
+    let ctx = format!("client program {:?}, server program {:?}, grease={}, extensions={}, values={:?}", case.client_prog, case.server_prog, case.grease, case.extensions, case.values);
     let mut out = Vec::new();
     for (t, p) in &o.panics {
         out.push((format!("C14:panic@{}", explore::panics::short_loc(p)), format!("{ctx}: task {t} panicked: {p}")));
@@ -369,7 +381,7 @@ fn programs(alphabet: &[Op], maxlen: usize) -> Vec<Vec<Op>> {
 }
 
 fn case_json(c: &Case, choices: &[u32], seed: u64, mode: &str) -> Value {
-    json!({"client": c.client_prog.iter().map(|o| format!("{o:?}")).collect::<Vec<_>>(), "server": c.server_prog.iter().map(|o| format!("{o:?}")).collect::<Vec<_>>(), "grease": c.grease, "extensions": c.extensions, "choices": choices, "seed": seed, "mode": mode})
+    json!({"client": c.client_prog.iter().map(|o| format!("{o:?}")).collect::<Vec<_>>(), "server": c.server_prog.iter().map(|o| format!("{o:?}")).collect::<Vec<_>>(), "grease": c.grease, "extensions": c.extensions, "values": c.values.map(|(a, b, n)| json!([a.to_string(), b.to_string(), n.to_string()])), "choices": choices, "seed": seed, "mode": mode})
 }
 
 fn op_from(s: &str) -> Op {
@@ -393,7 +405,7 @@ pub fn run(args: &Args) -> i32 {
     let mut rep = Report::new("C14", args.tier, args.seed, "model_checking");
     rep.exhaustive = true;
     rep.rule = format!(
-        "programs: every client call sequence of length <= {cl} over {{send_data(empty), send_data(1 byte), send_data(two-chunk Buf), send_trailers, finish, stop_stream}} after send_request (against a fixed server program), and every server call sequence of length <= {sl} over {{send_response, the three send_data, send_trailers, finish, stop_stream, shutdown(0), shutdown(1)}} (against a fixed client program); each call awaited; x (grease on/off) x (extensions configured on/off). Each program under the default transport, the uniform one-byte-per-write schedule, and (programs of length <= 3) every write-acceptance pattern with <= {bound} deviations, a deviation being one poll_ready/poll_send answer that accepts 0, 1, 2, header-boundary-1, header-boundary, header-boundary+1 or n-1 bytes and then returns Pending. Oracle: refimpl parses the complete byte log of every stream both endpoints wrote (stream types, SETTINGS first and only allowed control frames, complete frames whose length equals the bytes that follow, grease form of reserved ids, no HTTP/2 type or setting, HEADERS payloads decodable, DATA payload = the program's bytes). states = distinct transport fingerprints; non-trivial = executions with a partial write."
+        "programs: every client call sequence of length <= {cl} over {{send_data(empty), send_data(1 byte), send_data(two-chunk Buf), send_trailers, finish, stop_stream}} after send_request (against a fixed server program), and every server call sequence of length <= {sl} over {{send_response, the three send_data, send_trailers, finish, stop_stream, shutdown(0), shutdown(1)}} (against a fixed client program); each call awaited; x (grease on/off) x (extensions configured on/off); plus a values family: max_field_section_size and max_webtransport_sessions from {{0, 63, 64, 16383, 16384, 2^30-1, 2^30, 2^62-1}} and a server shutdown(n) for n in {{0, 15, 16, 4095, 4096, 2^28-1, 2^28}} (every varint form boundary in SETTINGS values and GOAWAY identifiers). Each program under the default transport, the uniform one-byte-per-write schedule, and (programs of length <= 3) every write-acceptance pattern with <= {bound} deviations, a deviation being one poll_ready/poll_send answer that accepts 0, 1, 2, header-boundary-1, header-boundary, header-boundary+1 or n-1 bytes and then returns Pending. Oracle: refimpl parses the complete byte log of every stream both endpoints wrote (stream types, SETTINGS first and only allowed control frames, complete frames whose length equals the bytes that follow, grease form of reserved ids, no HTTP/2 type or setting, HEADERS payloads decodable, DATA payload = the program's bytes). states = distinct transport fingerprints; non-trivial = executions with a partial write."
     );
     rep.assumptions = vec!["cancelling a pending write future is outside the documented pattern (DESIGN.md 6)".into(), "the order of HEADERS/DATA on a request stream is the application's responsibility and not judged here".into()];
     rep.bound_note = format!("client programs <= {cl} calls, server programs <= {sl} calls, deviation bound {bound}");
@@ -403,10 +415,26 @@ pub fn run(args: &Args) -> i32 {
     for grease in [true, false] {
         for extensions in [false, true] {
             for p in programs(&calpha, cl) {
-                cases.push(Case { client_prog: p, server_prog: vec![Op::Response, Op::Data1, Op::Finish], grease, extensions });
+                cases.push(Case { client_prog: p, server_prog: vec![Op::Response, Op::Data1, Op::Finish], grease, extensions, values: None });
             }
             for p in programs(&salpha, sl) {
-                cases.push(Case { client_prog: vec![Op::Data1, Op::Finish], server_prog: p, grease, extensions });
+                cases.push(Case { client_prog: vec![Op::Data1, Op::Finish], server_prog: p, grease, extensions, values: None });
+            }
+        }
+    }
+    // values family: numbers around every varint form boundary in SETTINGS values and GOAWAY identifiers
+    let bvals: Vec<u64> = vec![0, 63, 64, 16383, 16384, (1 << 30) - 1, 1 << 30, (1 << 62) - 1];
+    let ns: Vec<usize> = vec![0, 15, 16, 4095, 4096, (1 << 28) - 1, 1 << 28];
+    let mut n_values = 0;
+    for (i, &v) in bvals.iter().enumerate() {
+        for (j, &n) in ns.iter().enumerate() {
+            if !thorough && (i + j) % 2 == 1 && v != 16384 && n != 4096 {
+                continue;
+            }
+            for grease in [false, true] {
+                let w = bvals[(i + j) % bvals.len()];
+                cases.push(Case { client_prog: vec![Op::Data1, Op::Finish], server_prog: vec![Op::Response, Op::Data1, Op::Finish], grease, extensions: false, values: Some((v, w, n)) });
+                n_values += 1;
             }
         }
     }
@@ -461,6 +489,7 @@ pub fn run(args: &Args) -> i32 {
         total.merge(a);
     }
     total.count("programs", cases.len() as u64);
+    total.count("value_boundary_cases", n_values as u64);
     for i in [cases.len() / 9, cases.len() / 2, cases.len() - 1] {
         total.samples.push(json!(format!("client {:?} / server {:?} grease={} extensions={}", cases[i].client_prog, cases[i].server_prog, cases[i].grease, cases[i].extensions)));
     }
@@ -473,6 +502,7 @@ pub fn replay(r: &Value) -> i32 {
         server_prog: r["server"].as_array().unwrap().iter().map(|s| op_from(s.as_str().unwrap())).collect(),
         grease: r["grease"].as_bool().unwrap(),
         extensions: r["extensions"].as_bool().unwrap(),
+        values: r["values"].as_array().map(|a| (a[0].as_str().unwrap().parse().unwrap(), a[1].as_str().unwrap().parse().unwrap(), a[2].as_str().unwrap().parse().unwrap())),
     };
     let seed = r["seed"].as_u64().unwrap_or(0);
     let choices: Vec<u32> = r["choices"].as_array().unwrap().iter().map(|v| v.as_u64().unwrap() as u32).collect();
